@@ -77,12 +77,23 @@ func argumentsGetOwnProperty(obj *object, name string) *property {
 }
 
 func argumentsDefineOwnProperty(obj *object, name string, descriptor property, throw bool) bool {
-	if _, exists := obj.value.(argumentsObject).get(name); exists {
+	if current, exists := obj.value.(argumentsObject).get(name); exists {
+		// An accessor descriptor, or one that makes the property read-only, ends the
+		// link between the index and its parameter (10.6 [[DefineOwnProperty]] step 5).
+		unmap := descriptor.isAccessorDescriptor() || (descriptor.writeSet() && !descriptor.writable())
+		if unmap && descriptor.value == nil {
+			// The property keeps the value the parameter has at this moment.
+			descriptor.value = current
+		}
 		if !objectDefineOwnProperty(obj, name, descriptor, false) {
 			return obj.runtime.typeErrorResult(throw)
 		}
+		arguments := obj.value.(argumentsObject)
 		if value, valid := descriptor.value.(Value); valid {
-			obj.value.(argumentsObject).put(name, value)
+			arguments.put(name, value)
+		}
+		if unmap {
+			arguments.delete(name)
 		}
 		return true
 	}
